@@ -466,7 +466,7 @@ class World:
         self.settings_data = data
         self.settings_path = os.path.join(self.scratch, 'settings.yml')
         with open(self.settings_path, 'w') as f:
-            yaml.safe_dump(data, f)
+            yaml.safe_dump(data, f, sort_keys=False)
 
     def make_berte(self):
         from bert_e.settings import setup_settings
